@@ -213,6 +213,30 @@ def unstable(nodes):
 CONTRACTIONS = ('einsum', 'dot', 'matmul', 'vdot')
 
 
+def unit_slice_needs_clipping(items, shape):
+    """does the index contain a slice with step 1 whose bounds lie outside the axis or describe an empty range (the forms that
+    function._takeslice does not clip)?"""
+    consumed = sum(1 if it['k'] in ('int', 'slice', 'arr', 'node') else len(ops.seq(it['sh'])) if it['k'] == 'mask' else 0 for it in items)
+    ax = 0
+    for it in items:
+        if it['k'] == 'ell':
+            ax += len(shape) - consumed
+        elif it['k'] == 'mask':
+            ax += len(ops.seq(it['sh']))
+        elif it['k'] == 'slice':
+            a = ops.seq(it['a'])
+            if ax < len(shape) and (not a[4] or a[5] == 1):
+                n = shape[ax]
+                start = 0 if not a[0] else a[1] + n if a[1] < 0 else a[1]
+                stop = n if not a[2] else a[3] + n if a[3] < 0 else a[3]
+                if start < 0 or stop < 0 or start > n or stop > n or start > stop:
+                    return True
+            ax += 1
+        elif it['k'] != 'new':
+            ax += 1
+    return False
+
+
 def key_for(nodes, k, what, ex=None):
     """root-cause signature of a deviation at node k: call + the feature of its parameters / operand kinds that selects the
     code path + the kind of deviation (stable across seeds, never the whole input)"""
@@ -233,7 +257,7 @@ def key_for(nodes, k, what, ex=None):
         return 'cross:integer-operands:dtype'
     if op in ('take', 'getitem', 'compress') and 'need at least one array to stack' in msg:
         return 'take:empty-index-list:build-exception:ValueError'
-    if op == 'getitem' and desc in ('clipped-slice', 'empty-slice', 'negative-step-slice', 'step-slice', 'slice') and what in ('shape', 'eval-exception:AssertionError'):
+    if op == 'getitem' and what in ('shape', 'eval-exception:AssertionError') and unit_slice_needs_clipping(ops.seq(n['p']), opsh[0]):
         return 'getitem:slice-bounds-not-clipped:' + what
     if fnindex and what == 'eval-exception:AssertionError':
         return 'take:unbounded-integer-index:eval-exception:AssertionError'
@@ -249,6 +273,8 @@ def key_for(nodes, k, what, ex=None):
         return 'transpose:axes-not-validated:' + what
     if op == 'searchsorted' and what in ('not-rejected', 'eval-exception:AttributeError', 'eval-exception:AssertionError', 'eval-exception:KeyError'):
         return 'searchsorted:sorted-array-not-validated:' + what
+    if op in ('det', 'inv') and what == 'eval-exception:AssertionError' and set(opdt) <= {'b', 'i'}:
+        return 'det-inv:integer-operand:eval-exception:AssertionError'
     if op in ('prod', 'vdot', 'matmul', 'reshape'):
         return '{}:{}'.format(op, what)                # the descriptor does not select the code path here
     if op in ops.BINARY or op in ops.UNARY or op == 'divmod':
@@ -364,6 +390,18 @@ def replay(item):
             warnings.simplefilter('ignore')
             return smp.eval(obj, arguments=args)
 
+    def unoptimized_is_right(wantv, judgedv):
+        """root-cause attribution: does the function array evaluate correctly when the evaluable optimizer
+        (optimized_for_numpy, a C02 matter) is switched off?  Then the function layer lowered the call correctly."""
+        try:
+            from nutils import evaluable
+            with numpy.errstate(all='ignore'), warnings.catch_warnings(), watchdog(EVAL_CPU_S):
+                warnings.simplefilter('ignore')
+                got0 = evaluable.eval_once(smp.bind(objs[-1]).as_evaluable_array, arguments=args, _optimize=False)
+            return same_values(wantv, ~judgedv, numpy.asarray(got0), root['dt'])
+        except Exception:
+            return False
+
     def refvals(k):
         return numpy.array([numpy.asarray(vals[k - 1]) for vals, fail in ref])
 
@@ -396,7 +434,12 @@ def replay(item):
             out.update(status='skip', why='model value undefined at some point (evaluation raises)')
             return out
         what = 'eval-exception:' + type(ex2).__name__
-        out.update(status='violation', key=key_for(nodes, k, what, ex2),
+        key = key_for(nodes, k, what, ex2)
+        if root['dt'] in 'bifc' and not anybad:
+            w0 = numpy.array([ops.decode(root['sh'], root['dt'], pv)[0] for pv in e['root']]).reshape((len(e['root']),) + tuple(ops.seq(root['sh'])))
+            if unoptimized_is_right(w0, numpy.ones(w0.shape, dtype=bool)):
+                key = 'evaluable-optimizer:eval-exception-only-with-_optimize'
+        out.update(status='violation', key=key,
                    what='sample.eval of {} on {} raises {}: {}'.format(out['expr'], out['smp'], type(ex2).__name__, str(ex2)[:120]))
         return out
     want = []
@@ -453,7 +496,8 @@ def replay(item):
     if not same_values(want, ~judged, got, root['dt']):
         k, what, ex2 = first_deviation()
         pts = [i for i in range(len(want)) if not same_values(want[i], ~judged[i], got[i], root['dt'])]
-        out.update(status='violation', key=key_for(nodes, k, 'value'),
+        key = 'evaluable-optimizer:value-wrong-only-with-_optimize' if unoptimized_is_right(want, judged) else key_for(nodes, k, 'value')
+        out.update(status='violation', key=key,
                    what='{} on sample {}: value at point {} is {} but numpy gives {}'.format(out['expr'], out['smp'], pts[0], got[pts[0]].tolist(), want[pts[0]].tolist()))
         return out
     out['points'] = int(finite.sum())
